@@ -151,6 +151,45 @@ def run(ctx):
                 if np.abs(a - b).max() > 3e-2 * a.max():
                     ctx.violation({'kind': 'image-after-rescale', 'upscale': s > 1, 'nseg>1': nseg > 1},
                                   {'shape': shape, 'scale': s, 'max_rel_diff': float(np.abs(a - b).max() / a.max())}, case=None)
+    # beam width: a Gaussian amplitude of RMS width sigma samples has RMS width s*sigma samples after rescaling by s.  Pairs of factors
+    # that give the SAME output size on the same input shape are used one after the other (and the first again at the end): the
+    # magnification is the factor that was asked for, not one remembered from an earlier call
+    def rms_width(a):
+        p = np.abs(a) ** 2
+        rr, cc = np.indices(p.shape)
+        pr, pc = (p * rr).sum() / p.sum(), (p * cc).sum() / p.sum()
+        return np.sqrt((p * (rr - pr) ** 2).sum() / p.sum()), np.sqrt((p * (cc - pc) ** 2).sum() / p.sum())
+    for shape, fac in (((48, 48), (0.5, 0.48, 0.5)), ((40, 56), (1.5, 1.49, 1.5)), ((50, 50), (0.74, 0.73, 0.74))):
+        plane = smooth_plane(lentil, shape, [[1, 2], [1, 2]], 1)
+        plane.amplitude = plane.amplitude - 0.05
+        w0 = rms_width(plane.amplitude)
+        first = None
+        for k, s_ in enumerate(fac):
+            r = plane.rescale(s_)
+            nleaf += 1
+            w1 = rms_width(r.amplitude)
+            if any(abs(b / a - s_) > 0.012 * s_ for a, b in zip(w0, w1)):
+                ctx.violation({'kind': 'beam-width-after-rescale', 'call_in_sequence': k + 1},
+                              {'shape': shape, 'scale': s_, 'factors_used_before': fac[:k], 'width_ratio': [b / a for a, b in zip(w0, w1)]}, case=None)
+            if k == 0:
+                first = np.array(r.amplitude, copy=True)
+            if k == 2 and not np.allclose(r.amplitude, first, rtol=0, atol=1e-12):
+                ctx.violation({'kind': 'rescale-depends-on-earlier-calls'}, {'shape': shape, 'factors': fac}, case=None)
+    # magnitudes: rescaling is linear in the amplitude and in the OPD, whether they are of order 1 or 1e-13 (sub-picometre OPDs)
+    for shape in ((32, 32), (33, 31)):
+        for s_ in (0.75, 1.0, 1.5):
+            plane = smooth_plane(lentil, shape, [[1, 2], [1, 2]], 1)
+            ref = plane.rescale(s_)
+            for k_amp, k_opd in ((1e-13, 1.0), (1.0, 1e-6), (1e9, 1e3)):
+                tiny = smooth_plane(lentil, shape, [[1, 2], [1, 2]], 1)
+                tiny.amplitude = tiny.amplitude * k_amp
+                tiny.opd = tiny.opd * k_opd
+                rt = tiny.rescale(s_)
+                nleaf += 1
+                if not (np.allclose(rt.amplitude / k_amp, ref.amplitude, rtol=1e-9, atol=1e-12) and
+                        np.allclose(rt.opd / k_opd, ref.opd, rtol=1e-9, atol=1e-19)):
+                    ctx.violation({'kind': 'rescale-not-linear-in-magnitude', 'amplitude_scale': k_amp, 'opd_scale': k_opd},
+                                  {'shape': shape, 'scale': s_}, case=None)
     ctx.traces += len(res.emits) * 2
     ctx.extra.update({'bookkeeping_cases_from_TLC': len(res.emits), 'numeric_leaf_cases': nleaf,
                       'outside_model': ['transmitted power to interpolation accuracy (2e-2)', 'propagated image to interpolation accuracy (3e-2 of peak)']})
